@@ -27,6 +27,199 @@ def load_sources(repo=None):
     return out
 
 
+# ---- private names of the pinned tree -------------------------------------------------------------------
+# The rule sets name private methods as the pinned tree does (`Node._set_root`, `Backtest._process_data`, ...).
+# A consistent rename of such a method is not a change of behaviour, so the program is normalised back to the
+# pinned names before analysis: a pinned private method that is gone from its class and a new private method
+# of the same class with the same arity and a common caller are the same method (decided only when exactly
+# one candidate exists on either side).  The table is frozen by tools/gen_ctor_fields.py.
+_PRIVATE = []
+
+
+def _frozen_private_methods():
+    if not _PRIVATE:
+        import json
+
+        path = os.path.join(os.path.dirname(os.path.abspath(__file__)), "data", "private_methods.json")
+        try:
+            with open(path) as f:
+                _PRIVATE.append(json.load(f))
+        except Exception:
+            _PRIVATE.append({})
+    return _PRIVATE[0]
+
+
+def _is_private_name(n):
+    return n.startswith("_") and not (n.startswith("__") and n.endswith("__"))
+
+
+def private_method_table(trees):
+    """{scope: {name: {"arity": n, "callers": [function names]}}} for private methods / module functions."""
+    defs = {}
+    for rel, tree in trees.items():
+        if rel == "setup.py":
+            continue
+        for st in tree.body:
+            if isinstance(st, ast.ClassDef):
+                for m in st.body:
+                    if isinstance(m, ast.FunctionDef) and _is_private_name(m.name):
+                        defs.setdefault(st.name, {})[m.name] = {"arity": len(m.args.posonlyargs) + len(m.args.args), "callers": []}
+            elif isinstance(st, ast.FunctionDef) and _is_private_name(st.name):
+                defs.setdefault("<%s>" % rel, {})[st.name] = {"arity": len(st.args.posonlyargs) + len(st.args.args), "callers": []}
+    names = set(n for d in defs.values() for n in d)
+    for rel, tree in trees.items():
+        for fn in ast.walk(tree):
+            if not isinstance(fn, ast.FunctionDef):
+                continue
+            for n in ast.walk(fn):
+                if isinstance(n, ast.Call):
+                    called = n.func.attr if isinstance(n.func, ast.Attribute) else n.func.id if isinstance(n.func, ast.Name) else None
+                    if called in names:
+                        for d in defs.values():
+                            if called in d and fn.name not in d[called]["callers"] and fn.name != called:
+                                d[called]["callers"].append(fn.name)
+    for d in defs.values():
+        for v in d.values():
+            v["callers"].sort()
+    return defs
+
+
+class _RenameAttr(ast.NodeTransformer):
+    def __init__(self, mapping):
+        self.mapping = mapping
+
+    def visit_Attribute(self, node):
+        self.generic_visit(node)
+        if node.attr in self.mapping:
+            node.attr = self.mapping[node.attr]
+        return node
+
+    def visit_Name(self, node):
+        if node.id in self.mapping:
+            node.id = self.mapping[node.id]
+        return node
+
+    def visit_FunctionDef(self, node):
+        self.generic_visit(node)
+        if node.name in self.mapping:
+            node.name = self.mapping[node.name]
+        return node
+
+
+def private_field_table(trees):
+    """{class: {field: {"users": [methods of the class that touch self.<field>], "init": source of a constant
+    initial value in __init__ or "?", "order": position among the private fields first stored in __init__}}}"""
+    methods = set()
+    for tree in trees.values():
+        for n in ast.walk(tree):
+            if isinstance(n, ast.FunctionDef):
+                methods.add(n.name)
+    out = {}
+    for rel, tree in trees.items():
+        if rel == "setup.py":
+            continue
+        for st in tree.body:
+            if not isinstance(st, ast.ClassDef):
+                continue
+            tab = {}
+            for m in st.body:
+                if not isinstance(m, ast.FunctionDef) or not m.args.args:
+                    continue
+                selfname = m.args.args[0].arg
+                for n in ast.walk(m):
+                    if isinstance(n, ast.Attribute) and isinstance(n.value, ast.Name) and n.value.id == selfname and _is_private_name(n.attr) and n.attr not in methods:
+                        d = tab.setdefault(n.attr, {"users": [], "init": "?", "order": -1})
+                        if m.name not in d["users"]:
+                            d["users"].append(m.name)
+                if m.name == "__init__":
+                    k = 0
+                    for n in ast.walk(m):
+                        if isinstance(n, ast.Assign) and len(n.targets) == 1:
+                            t = n.targets[0]
+                            if isinstance(t, ast.Attribute) and isinstance(t.value, ast.Name) and t.value.id == selfname and t.attr in tab and tab[t.attr]["order"] < 0:
+                                tab[t.attr]["order"] = k
+                                k += 1
+                                if isinstance(n.value, (ast.Constant, ast.List, ast.Dict, ast.Tuple)) and len(ast.unparse(n.value)) < 30:
+                                    tab[t.attr]["init"] = ast.unparse(n.value)
+            for d in tab.values():
+                d["users"].sort()
+            if tab:
+                out[st.name] = tab
+    return out
+
+
+def _pair_up(missing, fresh, same):
+    """one-to-one pairing of vanished and new names: a pair is accepted when each is the other's only candidate,
+    or when equally many vanished and new names are mutually indistinguishable and pair up in declaration order"""
+    mapping = {}
+    cand = dict((m, [n for n in fresh if same(m, n)]) for m in missing)
+    for m, cs in cand.items():
+        if len(cs) == 1 and sum(1 for cs2 in cand.values() if cs[0] in cs2) == 1:
+            mapping[cs[0]] = m
+    left_m = [m for m in missing if m not in mapping.values()]
+    groups = {}
+    for m in left_m:
+        groups.setdefault(tuple(cand[m]), []).append(m)
+    for cs, ms in groups.items():
+        if cs and len(cs) == len(ms) and all(sum(1 for cs2 in cand.values() if c in cs2) == len(ms) for c in cs):
+            for m, n in zip(ms, cs):
+                mapping[n] = m
+    return mapping
+
+
+def normalise_private_names(trees):
+    """Rename consistently renamed private methods and fields back to their pinned names (in place); returns {new: pinned}."""
+    frozen = _frozen_private_methods()
+    if not frozen:
+        return {}
+    frozen_fields = frozen.get("__fields__", {})
+    frozen = dict((k, v) for k, v in frozen.items() if k != "__fields__")
+    now = private_method_table(trees)
+    all_now = set(n for d in now.values() for n in d)
+    all_frozen = set(n for d in frozen.values() for n in d)
+    mapping = {}
+    for scope, pinned in frozen.items():
+        cur = now.get(scope, {})
+        missing = [n for n in pinned if n not in cur and n not in all_now]
+        fresh = [n for n in cur if n not in pinned and n not in all_frozen]
+        if not missing or not fresh:
+            continue
+
+        def same(m, n, cur=cur, pinned=pinned):
+            return cur[n]["arity"] == pinned[m]["arity"] and bool(set(cur[n]["callers"]) & set(pinned[m]["callers"]) or (not cur[n]["callers"] and not pinned[m]["callers"]))
+
+        mapping.update(_pair_up(missing, fresh, same))
+    if mapping:
+        for rel in list(trees):
+            trees[rel] = _RenameAttr(mapping).visit(trees[rel])
+    # fields (after the methods carry their pinned names again)
+    fnow = private_field_table(trees)
+    used_now = set(n for d in fnow.values() for n in d)
+    used_frozen = set(n for d in frozen_fields.values() for n in d)
+    fmap, conflict = {}, set()
+    for cls, pinned in frozen_fields.items():
+        cur = fnow.get(cls, {})
+        missing = sorted([n for n in pinned if n not in cur], key=lambda n: pinned[n]["order"])
+        fresh = sorted([n for n in cur if n not in pinned and n not in used_frozen], key=lambda n: cur[n]["order"])
+        if not missing or not fresh:
+            continue
+
+        def same_f(m, n, cur=cur, pinned=pinned):
+            return cur[n]["users"] == pinned[m]["users"] and cur[n]["init"] == pinned[m]["init"]
+
+        for n, m in _pair_up(missing, fresh, same_f).items():
+            if n in fmap and fmap[n] != m:
+                conflict.add(n)
+            fmap[n] = m
+    for n in conflict:
+        fmap.pop(n, None)
+    if fmap:
+        for rel in list(trees):
+            trees[rel] = _RenameAttr(fmap).visit(trees[rel])
+        mapping.update(fmap)
+    return mapping
+
+
 class FuncInfo(object):
     def __init__(self, module, cls, node):
         self.module = module
@@ -91,7 +284,7 @@ class ClassInfo(object):
 
 
 class Program(object):
-    def __init__(self, sources=None):
+    def __init__(self, sources=None, normalise=True):
         self.sources = sources if sources is not None else load_sources()
         self.trees = {}
         self.classes = {}
@@ -99,10 +292,12 @@ class Program(object):
         self.constants = {}  # (module, name) -> ast expr
         for rel, text in self.sources.items():
             try:
-                tree = ast.parse(text, filename=rel)
+                self.trees[rel] = ast.parse(text, filename=rel)
             except SyntaxError as e:
                 raise AnalysisError("cannot parse %s: %s" % (rel, e))
-            self.trees[rel] = tree
+        self.renamed = normalise_private_names(self.trees) if normalise else {}
+        for rel in self.sources:
+            tree = self.trees[rel]
             for st in tree.body:
                 if isinstance(st, ast.ClassDef):
                     self.classes[st.name] = ClassInfo(rel, st)
@@ -112,6 +307,11 @@ class Program(object):
                     self.constants[(rel, st.targets[0].id)] = st.value
         self._mro = {}
         self._subs = {}
+        for ci in self.classes.values():
+            for m in ci.methods.values():
+                m.prog = self
+        for f in self.functions.values():
+            f.prog = self
 
     # ---- hierarchy -------------------------------------------------------------------------
     def mro(self, cname):
